@@ -1,5 +1,6 @@
 CONSTANTS
   GC = FALSE
+  NonTailIf = FALSE
   Family = "derived-quick"
   MaxKont = 12
 SPECIFICATION Spec
